@@ -25,6 +25,7 @@ RULE = ('callable kinds (function, lambda, builtin sum, method descriptor str.sp
         '(scoped ones too) is a subclass with the same name/module/doc, instance/type identity, pickle round trip whenever the original '
         'pickles, rejected registrations (5 kinds x function/class/class with registered methods/decorated function/class with decorated or inherited-configurable constructor x 3 APIs, outside and inside interactive mode) leave '
         'the registry and the target unchanged, re-registration (function or class, 3 APIs) only inside interactive mode (block exit by return, '
+        'Class shapes include a class that replaces an inherited registered method by a non-method attribute (nothing left to override: exact class, pickles). '
         'Exception, KeyboardInterrupt, SystemExit, GeneratorExit). distinct = (kind, api, form, overrides, access path)')
 TIERS = {
     'quick': {'workers': 8, 'cases': 1750, 'timeout': 600},
